@@ -55,6 +55,26 @@ Inductive out : Type :=
 Inductive aux : Type :=
 | ANone | AHit | AMiss | ADirect | AClash | AReclaimed | ARefused.
 
+Definition out_eqb (x y : out) : bool :=
+  match x, y with
+  | OOk, OOk | OErr, OErr | OBad, OBad => true
+  | ORes (Some a), ORes (Some b) => Z.eqb a b
+  | ORes None, ORes None => true
+  | _, _ => false
+  end.
+Fixpoint outs_eqb (l l' : list out) : bool :=
+  match l, l' with
+  | [], [] => true
+  | x :: t, y :: t' => out_eqb x y && outs_eqb t t'
+  | _, _ => false
+  end.
+Definition aux_eqb (x y : aux) : bool :=
+  match x, y with
+  | ANone, ANone | AHit, AHit | AMiss, AMiss | ADirect, ADirect | AClash, AClash
+  | AReclaimed, AReclaimed | ARefused, ARefused => true
+  | _, _ => false
+  end.
+
 Definition aux_is_clash (a : aux) : bool := match a with AClash => true | _ => false end.
 
 Section Machines.
@@ -62,6 +82,11 @@ Section Machines.
      decorated with the unconditional functools.cache *)
   Variable F : fid -> tree -> Z -> option Z.
   Variable always : fid -> bool.
+  (* the decorator's decision "go through the memo table" as a function of the node's frozen
+     flag, and whether a memo key keeps its node alive; the implementation's values are
+     [real_cond] and [real_pin] below (from GenMemo), other values model mutants *)
+  Variable cond : bool -> bool.
+  Variable pin : bool.
   Variable D : nat.                      (* how deep a method may look *)
 
   (* ------------------------------------------------------------------ reference *)
@@ -135,6 +160,12 @@ Section Machines.
     match h with
     | [] => []
     | o :: t => let (s', x) := rstep s o in x :: rrun s' t
+    end.
+
+  Fixpoint rfinal (s : rheap) (h : list op) : rheap :=
+    match h with
+    | [] => s
+    | o :: t => rfinal (fst (rstep s o)) t
     end.
 
   Definition r0 : rheap := fun _ => None.
@@ -224,10 +255,7 @@ Section Machines.
                       end) (dom c).
 
   (* does the decorator go through the memo table for this call? *)
-  Definition uses_cache (f : fid) (frozen : bool) : bool :=
-    always f ||
-    conditional_cache_uses_cache
-      (cache_if_frozen_condition enable_cache_on_ast_frozen true true true frozen).
+  Definition uses_cache (f : fid) (frozen : bool) : bool := always f || cond frozen.
 
   Definition set_heap (c : cstate) (hp : addr -> option ccell) : cstate :=
     mkS (loc c) (used c) hp (dom c) (memo c).
@@ -302,7 +330,7 @@ Section Machines.
     | Reclaim a =>
         match heap c a with
         | Some cc =>
-            if c_handle cc || (cache_key_holds_object && pinned (memo c) a) || referenced c a
+            if c_handle cc || (pin && pinned (memo c) a) || referenced c a
             then (c, (OOk, ARefused))
             else (mkS (nupd (loc c) (c_owner cc) None) (used c) (aupd (heap c) a None) (dom c) (memo c),
                   (OOk, AReclaimed))
@@ -337,6 +365,14 @@ Section Machines.
   Definition live_addrs (c : cstate) : list addr :=
     filter (fun a => match heap c a with Some _ => true | None => false end) (nodup Z.eq_dec (dom c)).
 End Machines.
+
+(* the implementation's parameters, from the translated source: a call goes through the memo
+   table iff conditional_cache's test of cache_if_frozen_condition(func, args, kwargs) holds,
+   for a call `node.method(...)` (args non-empty, self truthy, self a Node) *)
+Definition real_cond (frozen : bool) : bool :=
+  conditional_cache_uses_cache
+    (cache_if_frozen_condition enable_cache_on_ast_frozen true true true frozen).
+Definition real_pin : bool := cache_key_holds_object.
 
 (* ------------------------------------------------------------------ interleaving *)
 (* a joint history whose operations are tagged with the compilation they belong to *)
@@ -400,3 +436,13 @@ Definition F_test (f : fid) (t : tree) (x : Z) : option Z :=
   end.
 
 Definition always_test (f : fid) : bool := Nat.eqb f 2.
+
+(* constructors with Z-typed names (for histories written as numerals in Z_scope) *)
+Definition alloc (n : Z) (a : addr) (tg v : Z) (ds : list Z) : op :=
+  Alloc (Z.to_nat n) a tg v (map Z.to_nat ds).
+Definition setval (n v : Z) : op := SetVal (Z.to_nat n) v.
+Definition push (n d : Z) : op := Push (Z.to_nat n) (Z.to_nat d).
+Definition freeze (n : Z) : op := Freeze (Z.to_nat n).
+Definition call (f n x : Z) : op := Call (Z.to_nat f) (Z.to_nat n) x.
+Definition drop (n : Z) : op := Drop (Z.to_nat n).
+Definition reclaim (a : addr) : op := Reclaim a.
